@@ -18,17 +18,32 @@ def _b(x):
     return z3.BoolVal(builtins.bool(x))
 
 
+def _bi(xs):
+    """Integer-sort mirrors of the operands, or None if one of them has none."""
+    out = []
+    for x in xs:
+        if isinstance(x, SymBool):
+            if x.i is None:
+                return None
+            out.append(x.i)
+        else:
+            out.append(z3.BoolVal(builtins.bool(x)))
+    return out
+
+
 def And(*xs):
     """Non-forking conjunction."""
     if not any(isinstance(x, SymBool) for x in xs):
         return all(xs)
-    return SymBool.of(z3.And(*[_b(x) for x in xs]))
+    m = _bi(xs)
+    return SymBool.of(z3.And(*[_b(x) for x in xs]), None if m is None else z3.And(*m))
 
 
 def Or(*xs):
     if not any(isinstance(x, SymBool) for x in xs):
         return any(xs)
-    return SymBool.of(z3.Or(*[_b(x) for x in xs]))
+    m = _bi(xs)
+    return SymBool.of(z3.Or(*[_b(x) for x in xs]), None if m is None else z3.Or(*m))
 
 
 def Not(x):
@@ -41,7 +56,8 @@ def Implies(a, b):
 
 def Iff(a, b):
     if isinstance(a, SymBool) or isinstance(b, SymBool):
-        return SymBool.of(_b(a) == _b(b))
+        m = _bi([a, b])
+        return SymBool.of(_b(a) == _b(b), None if m is None else m[0] == m[1])
     return builtins.bool(a) == builtins.bool(b)
 
 
